@@ -411,6 +411,11 @@ def run(ctx):
                     if isinstance(s2, ast.Assign) and isinstance(s2.targets[0], ast.Name) and isinstance(s2.value, ast.Subscript) and isinstance(s2.value.value, ast.Subscript) \
                             and norm(s2.value.value.slice) == l_.target.id and isinstance(s2.value.slice, ast.Constant) and s2.value.slice.value in (0, 1):
                         two[s2.value.slice.value] = s2.targets[0].id
+                    # ... or the two-dimensional spelling B = E[I, 0]; T = E[I, 1]
+                    if isinstance(s2, ast.Assign) and isinstance(s2.targets[0], ast.Name) and isinstance(s2.value, ast.Subscript) and isinstance(s2.value.slice, ast.Tuple) \
+                            and len(s2.value.slice.elts) == 2 and norm(s2.value.slice.elts[0]) == l_.target.id and isinstance(s2.value.slice.elts[1], ast.Constant) \
+                            and s2.value.slice.elts[1].value in (0, 1):
+                        two[s2.value.slice.elts[1].value] = s2.targets[0].id
                 if len(two) == 2 and not outer:
                     I = l_.target.id
                     Bn, Tn = two[0], two[1]
